@@ -916,12 +916,18 @@ func (sm *Subscriptions) WhenQueue(tick Result) <-chan struct{} {
 // QueueFlush means a new queue, and all the queue-related subs are expired and
 // have to be closed.
 func (sm *Subscriptions) QueueFlush() {
+	sm.Mx.Lock()
+	defer sm.Mx.Unlock()
+
 	for _, binding := range sm.whenQueueEnds {
 		closeSafe(binding.ch)
 	}
 	for _, binding := range sm.whenQueue {
 		closeSafe(binding.ch)
 	}
+	// forget the closed ones, a later ProcessWhenQueue would close them again
+	sm.whenQueueEnds = nil
+	sm.whenQueue = nil
 }
 
 // ///// ///// /////
